@@ -137,6 +137,8 @@ def _pdesc(p):
         return 'pack(%r,%s)' % (p[1], ','.join(a.desc() for a in p[2]))
     if p[0] == 'opq':
         return '<%s>' % p[1].desc()
+    if p[0] == 'fix':
+        return '<%d octets of %s>' % (p[1], p[2])
     return '<%s>' % (p[0],)
 
 
